@@ -332,3 +332,16 @@ def run(ctx):
     d4(ctx, F)
     if ctx.tier == "thorough":
         d5(ctx)
+        # who-may-call over every target of the workspace (examples, integration tests, benches) and every feature
+        for cfg in ("alltargets", "allfeatures"):
+            FF = ctx.facts(cfg)
+            n = 0
+            for b in list(FF.bodies.values()) + list(FF.test_bodies.values()):
+                for c in b.calls():
+                    n += 1
+                    full = c.callee + " " + c.full
+                    for bad in DISALLOWED_SUBSTR:
+                        if bad in full:
+                            ctx.fail("C15.D3.nothing-permissive", "permissive[%s]:%s:%s" % (cfg, b.path, bad), "permissive TLS API `%s` used in %s (%s build)" % (bad, b.path, cfg), c.span)
+            ctx.floor("C15.D3.nothing-permissive.calls-scanned[%s]" % cfg, n, 2000)
+            ctx.ok("C15.D3.nothing-permissive", "%s build: no permissive verifier API among %d call sites (incl. examples/tests/benches)" % (cfg, n))
